@@ -55,6 +55,11 @@ def check_json(inp):
     band = spec.band2 if ver == "2" else spec.band34
     names = model_value_names(ver, m)
     want_version = spec.JSON_VERSION["3." + str(ref.minor(prefix)) if ver == "3" else ver]
+    # another spelling of the same assignment is serialised first: documents must not be shared between objects
+    twin = obs.classes()[ver](ref.build(prefix, m, [k for k in V.order if k in m]))
+    for sort in (False, True):
+        for minimal in (False, True):
+            twin.as_json(sort=sort, minimal=minimal)
     o = obs.classes()[ver](s)
     docs = {}
     fails = []
